@@ -39,7 +39,12 @@ def _merge(batches):
         digests |= {(b.engine, d) for d in b.digests}
         nontrivial |= {(b.engine, d) for d in b.nontrivial}
         samples.extend(b.samples[:4])
-        per_engine[b.engine] = {"runs": b.n, "wall_s": round(getattr(b, "wall", 0.0), 1),
+        key = b.engine
+        k = 2
+        while key in per_engine:
+            key = f"{b.engine}-part{k}"
+            k += 1
+        per_engine[key] = {"runs": b.n, "wall_s": round(getattr(b, "wall", 0.0), 1),
                                 "runs_per_hour": int(b.n / max(getattr(b, "wall", 1e-9), 1e-9) * 3600),
                                 "distinct_histories": len(b.digests), "statuses": dict(b.counters)}
     return extra, sets, n, digests, nontrivial, samples, per_engine
@@ -280,7 +285,7 @@ def spec_c19(tier):
 def spec_c01(tier):
     return {
         "level": "exploration",
-        "parts": [_e1_part("C01", tier, 200, 3500, max_ops=3)],
+        "parts": [_leaf_sweep_part("C01", tier), _e1_part("C01", tier, 180, 3500, max_ops=3)],
         "coverage": _generic_coverage(E1_RULE + "  Post-condition monitor: every completed find without the escape message is "
                                       "re-simulated on the returned object at the returned height.  Input coverage is only what the "
                                       "workload generator's ranges give.", REAL_E1, STUB_E1, _e1_extra),
@@ -316,6 +321,8 @@ def spec_c17(tier):
 def _with_e1(base_spec_fn, prop, quick_n, thorough_n, **extra):
     def f(tier):
         sp = base_spec_fn(tier)
+        if prop == "C05":
+            sp["parts"].append(_leaf_sweep_part(prop, tier))
         sp["parts"].append(_e1_part(prop, tier, quick_n, thorough_n, budget_quick=200, budget_thorough=1500, **extra))
         inner = sp["coverage"]
 
